@@ -7,6 +7,7 @@
 //! sample of inputs the observation digest is recomputed (a) a second time,
 //! (b) on another thread, (c) on a relocated, differently aligned copy.
 pub mod cmapgen;
+mod bitmapgen;
 pub mod font;
 pub mod h_core;
 pub mod h_layout;
@@ -847,6 +848,24 @@ fn cmap_directed(ctx: &mut Ctx, r: &mut Runner, fonts: &[CorpusFont], seed: u64)
             patch.undo(&mut buf);
             let spec = Spec::Payload { tag: *b"cmap", real, cross: false, cfg: WalkCfg::mutant(40_000, None) };
             exec(ctx, r, "inputs:cmap-directed-payload", &id, &m, &edited, &spec, nt(&id, "cdp", &m));
+        }
+    }
+    // synthetic EBLC/CBLC index subtables of every format (sparse formats 4/5 are in no corpus font)
+    if let Some(b) = base {
+        let n_bitmap = ctx.budget(400, 4000);
+        for it in 0..n_bitmap {
+            r.item += 1;
+            if !ctx.mine(r.item) {
+                continue;
+            }
+            let mut rng = Rng::derive(seed, "c01-bitmap-synth", it as u64);
+            let cblc = it % 2 == 1;
+            let (desc, loc, dat) = bitmapgen::synth(&mut rng, cblc);
+            let (lt, dt) = if cblc { (b"CBLC", b"CBDT") } else { (b"EBLC", b"EBDT") };
+            let font = gen::with_table(&gen::with_table(&b.data, lt, &loc), dt, &dat);
+            let m = format!("bitmap-synth#{}:{}", it, desc);
+            ctx.count("bitmap_synth_fonts", 1);
+            exec(ctx, r, "inputs:bitmap-synth-file", &b.id(), &m, &font, &Spec::File(WalkCfg::mutant(40_000, Some(*lt))), nt(&b.id(), "bsf", &m));
         }
     }
     let n_synth = ctx.budget(600, 6000);
